@@ -444,6 +444,11 @@ def falsify_numpy(ctx, ck, names):
                                        f"q = ir.Period.from_year_segment(ir.Frequency({f}), np.int64({y}), np.int64({g}))\n",
                                        f"q = ir.Period.from_ymd(ir.Frequency({f}), np.int64({y}), np.int64({p.to_ymd()[1]}), np.int64(1))\n"]))
         pre = "import numpy as np\n" + build
+        from .C09 import run_snippet
+        if run_snippet(pre) is not None:
+            # the arithmetic / constructor itself raises: not a matter of C11 (period arithmetic is C09)
+            ck.count["numpy_int_build_raises"] = ck.count.get("numpy_int_build_raises", 0) + 1
+            continue
         for cname, body in NUMPY_CODECS + ([] if f == 0 else NUMPY_CAL_CODECS):
             ck.check(f"numpy_int:{cname}:roundtrip:{nm}",
                      f"a period built with numpy integers does not round-trip through {cname} like the same period built with ints",
